@@ -196,6 +196,13 @@ func collect(typ reflect.Type, v *jv.V, set func(*jv.V), sites *[]mutSite, depth
 		}
 	case reflect.Slice, reflect.Array:
 		wrongType(jv.Arr)
+		if typ.Kind() == reflect.Array && typ.Elem().Kind() == reflect.Uint8 && v.K != jv.Null {
+			// encoding/json reads base64 text into byte slices only, never into byte arrays
+			for _, b := range []string{"", "AQID", "AQIDBA==", "abcd"} {
+				b := b
+				*sites = append(*sites, mutSite{"base64-string-for-byte-array", true, func() { set(jv.StrV(b)) }})
+			}
+		}
 		if v.K == jv.Arr {
 			if typ.Kind() == reflect.Array {
 				*sites = append(*sites, mutSite{"wrong-array-length", true, func() {
